@@ -61,6 +61,11 @@ class Ctx:
         return '(%s %sacc)' % (k, vs) if self.eff else '(%s %stt)' % (k, vs)
 
     def ret(self, v):
+        if self.eff and getattr(self, 'out_params', None):
+            # reference parameters the caller reads afterwards: their final values, as effects tagged 2^64-16-i
+            fin = ' :: '.join('(%d, %s)' % (18446744073709551600 - i, ('(if %s then 1 else 0)' % ident(n)) if self.types.get(n) == 'bool' else ident(n))
+                              for i, n in enumerate(self.out_params))
+            return '(%s, %s :: acc)' % (v, fin)
         return '(%s, acc)' % v if self.eff else v
 
     def extern(self, ident, kind):
@@ -869,7 +874,7 @@ def _reset_stop():
     LAST_STOP = None
 
 
-def translate(name, params, ptypes, ret_type, body, consts, extern_types=None, drop_params=(), eff=False, prefix=False, havoc=False, skip_setters=False, rest_args=()):
+def translate(name, params, ptypes, ret_type, body, consts, extern_types=None, drop_params=(), eff=False, prefix=False, havoc=False, skip_setters=False, rest_args=(), out_params=()):
     """-> Coq source of `Definition gen_<name> ...`.  params/ptypes from the C++ declaration."""
     _reset_stop()
     c = Ctx(name, consts, ret_type in BOOL_TYPES, extern_types)
@@ -877,6 +882,7 @@ def translate(name, params, ptypes, ret_type, body, consts, extern_types=None, d
     c.havoc = havoc
     c.skip_setters = skip_setters
     c.rest_args = tuple(rest_args)
+    c.out_params = tuple(out_params)
     c.body_text = repr(body)
     plist = []
     c.params = set(params)
